@@ -99,4 +99,59 @@ where
       | some s' => go s' cs (k + 1)
       | none => some k
 
+/-! ### the same transition function, interpreted from a table of method *signatures* (`tools/translate_typestate.py`) -/
+
+/-- what the signature of one builder method says -/
+structure Sig where
+  /-- `where T: IntoReturn<..>`: the value must be `Clone` (`IntoReturnOnce` is satisfied by every value) -/
+  needClone : Bool
+  /-- `where O: Ordering<Kind = InAnyOrder>` -/
+  needAnyOrder : Bool
+  /-- `where R: Repetition<Kind = Exact>` -/
+  needExactRep : Bool
+  /-- the struct returned: 0 DefineResponse, 1 DefineMultipleResponses, 2 QuantifyReturnValue, 3 Quantify, 4 QuantifiedResponse -/
+  result : Nat
+  /-- the repetition marker of the result, if it has one -/
+  rep : Option Rep
+  deriving Repr, DecidableEq
+
+def St.tag : St → Nat
+  | .defineResponse _ => 0 | .defineMulti _ => 1 | .quantifyRV _ _ => 2 | .quantify _ => 3 | .quantified _ _ => 4
+
+def St.ord : St → Ord
+  | .defineResponse o | .defineMulti o | .quantifyRV o _ | .quantify o | .quantified o _ => o
+
+def Call.tag : Call → Nat
+  | .returns _ => 0 | .other => 1 | .once => 2 | .nTimes => 3 | .atLeastTimes => 4 | .then_ => 5
+
+/-- is the value at hand `Clone`? (`returns(v)`: the argument; on `QuantifyReturnValue`: the value it holds) -/
+def cloneAt : St → Call → Bool
+  | _, .returns c => c
+  | .quantifyRV _ c, _ => c
+  | _, _ => true
+
+def St.rep? : St → Option Rep
+  | .quantified _ r => some r
+  | _ => none
+
+def mkSt (tag : Nat) (o : Ord) (rep : Option Rep) (clone : Bool) : Option St :=
+  match tag, rep with
+  | 0, _ => some (.defineResponse o)
+  | 1, _ => some (.defineMulti o)
+  | 2, _ => some (.quantifyRV o clone)
+  | 3, _ => some (.quantify o)
+  | 4, some r => some (.quantified o r)
+  | _, _ => none
+
+/-- one builder call, decided from the signature table and the marker kinds alone -/
+def stepOf (table : List ((Nat × Nat) × Sig)) (ordKind : Ord → Ord) (repKind : Rep → Rep) (s : St) (c : Call) : Option St :=
+  match table.lookup (s.tag, c.tag) with
+  | none => none                                   -- the struct has no such method
+  | some sig =>
+    if (!sig.needClone || cloneAt s c) &&
+       (!sig.needAnyOrder || ordKind s.ord == .anyOrder) &&
+       (!sig.needExactRep || (s.rep?.map repKind) == some .exact)
+    then mkSt sig.result s.ord sig.rep (cloneAt s c)
+    else none
+
 end Unimock.Typestate
